@@ -2,4 +2,399 @@
 import TjdModel.Autojac.Pipeline
 namespace Tjd.Autojac
 
+/-! ### arithmetic of `ceil(m / k)` -/
+
+theorem ceil_bounds (m k : Nat) (hm : 0 < m) (hk : 0 < k) :
+    1 ≤ (m + k - 1) / k ∧ ((m + k - 1) / k - 1) * k < m ∧ m ≤ (m + k - 1) / k * k := by
+  have h1 : (m + k - 1) / k * k ≤ m + k - 1 := Nat.div_mul_le_self _ _
+  have h2 : m + k - 1 < ((m + k - 1) / k + 1) * k := by
+    have := Nat.lt_mul_div_succ (m + k - 1) hk
+    rwa [Nat.mul_comm] at this
+  have h3 : 1 ≤ (m + k - 1) / k := by
+    rw [Nat.le_div_iff_mul_le hk]; omega
+  generalize (m + k - 1) / k = n at *
+  obtain ⟨n', rfl⟩ : ∃ n', n = n' + 1 := ⟨n - 1, by omega⟩
+  have e1 : (n' + 1) * k = n' * k + k := by rw [Nat.add_mul, Nat.one_mul]
+  have e2 : (n' + 1 + 1) * k = n' * k + k + k := by rw [Nat.add_mul, Nat.one_mul, e1]
+  rw [e2] at h2
+  rw [e1] at h1
+  refine ⟨h3, ?_, ?_⟩
+  · rw [Nat.add_sub_cancel]; omega
+  · rw [e1]; omega
+
+/-- the rows of a block -/
+theorem rows_eq_range' (s e : Nat) :
+    (List.range (e - s)).map (· + s) = List.range' s (e - s) := by
+  rw [List.range_eq_range']
+  have : (fun x => x + s) = (fun x => s + x) := by funext x; omega
+  rw [this, List.map_add_range', Nat.add_zero]
+
+theorem full_blocks_flatten (k j : Nat) :
+    ((List.range j).map (fun i => (i * k, (i + 1) * k))).flatMap
+      (fun se : Nat × Nat => (List.range (se.2 - se.1)).map (· + se.1)) = List.range (j * k) := by
+  induction j with
+  | zero => simp
+  | succ j ih =>
+    rw [List.range_succ, List.map_append, List.flatMap_append, ih]
+    simp only [List.map_singleton, List.flatMap_cons, List.flatMap_nil, List.append_nil]
+    have h : (j + 1) * k - j * k = k := by rw [Nat.add_mul]; omega
+    rw [h, Nat.add_mul, Nat.one_mul, List.range_add]
+    congr 1
+    apply List.map_congr_left
+    intro a _; omega
+
+theorem chunkRanges_flatten (m : Nat) (c : Option Nat) (hm : 0 < m) (hc : ∀ k, c = some k → 0 < k) :
+    (chunkRanges m c).flatMap
+      (fun se : Nat × Nat => (List.range (se.2 - se.1)).map (· + se.1)) = List.range m := by
+  unfold chunkRanges
+  have hk : 0 < c.getD m := by
+    cases c with
+    | none => simpa using hm
+    | some k => simpa using hc k rfl
+  generalize c.getD m = k at hk
+  obtain ⟨h1, h2, h3⟩ := ceil_bounds m k hm hk
+  simp only []
+  generalize (m + k - 1) / k = n at *
+  rw [List.flatMap_append, full_blocks_flatten]
+  simp only [List.flatMap_cons, List.flatMap_nil, List.append_nil]
+  have : m = (n - 1) * k + (m - (n - 1) * k) := by omega
+  conv => rhs; rw [this, List.range_add]
+  congr 1
+  apply List.map_congr_left
+  intro a _; omega
+
+theorem chunkRanges_none (m : Nat) : chunkRanges m none = chunkRanges m (some m) := rfl
+
+theorem chunkRanges_length (m k : Nat) (hm : 0 < m) (hk : 0 < k) :
+    (chunkRanges m (some k)).length = (m + k - 1) / k := by
+  have := (ceil_bounds m k hm hk).1
+  simp only [chunkRanges, Option.getD_some, List.length_append, List.length_map, List.length_range,
+    List.length_singleton]
+  omega
+
+theorem chunkRanges_single (m k : Nat) (hm : 0 < m) (h : m ≤ k) :
+    chunkRanges m (some k) = [(0, m)] := by
+  have hk : 0 < k := by omega
+  obtain ⟨h1, h2, _⟩ := ceil_bounds m k hm hk
+  simp only [chunkRanges, Option.getD_some]
+  generalize (m + k - 1) / k = n at *
+  have : n - 1 = 0 := by
+    apply Classical.byContradiction
+    intro hn
+    have : k ≤ (n - 1) * k := Nat.le_mul_of_pos_left k (by omega)
+    omega
+  rw [this]; simp
+
+theorem chunkRanges_size (m k : Nat) (hm : 0 < m) (hk : 0 < k) :
+    ∀ r ∈ chunkRanges m (some k), r.1 < r.2 ∧ r.2 ≤ m ∧ r.2 - r.1 ≤ k := by
+  obtain ⟨h1, h2, h3⟩ := ceil_bounds m k hm hk
+  simp only [chunkRanges, Option.getD_some]
+  generalize (m + k - 1) / k = n at *
+  intro r hr
+  rw [List.mem_append] at hr
+  rcases hr with hr | hr
+  · rw [List.mem_map] at hr
+    obtain ⟨i, hi, rfl⟩ := hr
+    rw [List.mem_range] at hi
+    have e1 : (i + 1) * k = i * k + k := by rw [Nat.add_mul, Nat.one_mul]
+    have : (i + 1) * k ≤ (n - 1) * k := Nat.mul_le_mul_right k (by omega)
+    simp only
+    omega
+  · rw [List.mem_singleton] at hr
+    subst hr
+    obtain ⟨n', rfl⟩ : ∃ n', n = n' + 1 := ⟨n - 1, by omega⟩
+    have e1 : (n' + 1) * k = n' * k + k := by rw [Nat.add_mul, Nat.one_mul]
+    simp only [Nat.add_sub_cancel] at *
+    omega
+
+/-! ### `mapM` over `flatMap` in `Except` -/
+
+theorem mapM_flatMap_except {ε α β γ : Type} (f : α → List β) (g : β → Except ε γ) (xs : List α) :
+    (xs.flatMap f).mapM g = (xs.mapM (fun x => (f x).mapM g)).map List.flatten := by
+  induction xs with
+  | nil => rfl
+  | cons x xs ih =>
+    rw [List.flatMap_cons, List.mapM_append, List.mapM_cons, ih]
+    cases (f x).mapM g with
+    | error e => rfl
+    | ok ys =>
+      cases xs.mapM (fun x => (f x).mapM g) with
+      | error e => rfl
+      | ok yss => rfl
+
+/-! ### `jacT` -/
+
+/-- the sweeps recorded by `jacT` -/
+def sweepsOf (ranges : List (Nat × Nat)) (retain : Bool) : List Sweep :=
+  ranges.zipIdx.map fun x =>
+    ({ rows := x.1.2 - x.1.1, vmap := (x.1.2 - x.1.1) ≠ 1,
+       retain := if x.2 + 1 < ranges.length then true else retain } : Sweep)
+
+section
+variable {α : Type} [Zero α] [Add α] [Mul α]
+
+theorem jacT_eq (E : Engine α) (outs ins : List Key)
+    (c : Option Nat) (retain : Bool) (j : JDict α) :
+    jacT E outs ins c retain j =
+      if ins.isEmpty then .ok ([], [])
+      else if outs.isEmpty then .ok (ins.map fun i => (i, []), [])
+      else if (lookupD j (outs.headD 0) []).length = 0 then .error Err.other
+      else if c = some 0 then .error Err.other
+      else
+        match (chunkRanges (lookupD j (outs.headD 0) []).length c).mapM
+            (fun se => jacChunk E outs ins j se.1 se.2) with
+        | .error e => .error e
+        | .ok blocks =>
+          .ok (List.zip ins (subMatrices (ins.map E.numel) blocks.flatten),
+               sweepsOf (chunkRanges (lookupD j (outs.headD 0) []).length c) retain) := by
+  unfold jacT
+  split
+  · rfl
+  split
+  · rfl
+  simp only []
+  split
+  · rfl
+  split
+  · rfl
+  have : (fun x : Nat × Nat => match x with | (s, e) => jacChunk E outs ins j s e)
+      = (fun se => jacChunk E outs ins j se.1 se.2) := by
+    funext ⟨s, e⟩; rfl
+  rw [this]
+  cases (chunkRanges (lookupD j (outs.headD 0) []).length c).mapM
+            (fun se => jacChunk E outs ins j se.1 se.2) with
+  | error e => rfl
+  | ok blocks => rfl
+
+/-- all blocks together compute the rows `0 … m-1` in order -/
+theorem blocks_flatten (E : Engine α) (outs ins : List Key) (c : Option Nat) (j : JDict α) (m : Nat)
+    (hm : 0 < m) (hc : ∀ k, c = some k → 0 < k) :
+    ((chunkRanges m c).mapM (fun se => jacChunk E outs ins j se.1 se.2)).map List.flatten =
+      (List.range m).mapM (fun r => vjpRow E outs ins (cotRow outs j r)) := by
+  unfold jacChunk
+  rw [← mapM_flatMap_except (fun se : Nat × Nat => (List.range (se.2 - se.1)).map (· + se.1)),
+    chunkRanges_flatten m c hm hc]
+
+/-- the Jacobians computed by `jacT` in chunk-free form -/
+theorem jacT_fst (E : Engine α) (outs ins : List Key)
+    (c : Option Nat) (retain : Bool) (j : JDict α) (hc : ∀ k, c = some k → 0 < k) :
+    (jacT E outs ins c retain j).map (·.1) =
+      if ins.isEmpty then .ok []
+      else if outs.isEmpty then .ok (ins.map fun i => (i, []))
+      else if (lookupD j (outs.headD 0) []).length = 0 then .error Err.other
+      else
+        ((List.range (lookupD j (outs.headD 0) []).length).mapM
+            (fun r => vjpRow E outs ins (cotRow outs j r))).map
+          (fun M => List.zip ins (subMatrices (ins.map E.numel) M)) := by
+  rw [jacT_eq]
+  split
+  · rfl
+  split
+  · rfl
+  split
+  · rfl
+  next hm =>
+  have hc0 : c ≠ some 0 := fun h => by have := hc 0 h; omega
+  rw [if_neg hc0, ← blocks_flatten E outs ins c j _ (Nat.pos_of_ne_zero hm) hc]
+  cases (chunkRanges (lookupD j (outs.headD 0) []).length c).mapM
+            (fun se => jacChunk E outs ins j se.1 se.2) with
+  | error e => rfl
+  | ok blocks => rfl
+
+/-- the sweeps of a successful `jacT` -/
+theorem jacT_ok_sweeps (E : Engine α) (outs ins : List Key)
+    (c : Option Nat) (retain : Bool) (j j' : JDict α) (sw : List Sweep)
+    (h : jacT E outs ins c retain j = .ok (j', sw)) :
+    ((ins = [] ∨ outs = []) ∧ sw = []) ∨
+    (ins ≠ [] ∧ outs ≠ [] ∧ (lookupD j (outs.headD 0) []).length ≠ 0 ∧ c ≠ some 0 ∧
+      sw = sweepsOf (chunkRanges (lookupD j (outs.headD 0) []).length c) retain) := by
+  rw [jacT_eq] at h
+  split at h
+  next hi =>
+    cases h
+    exact .inl ⟨.inl (by simpa using hi), rfl⟩
+  next hi =>
+  split at h
+  next ho =>
+    cases h
+    exact .inl ⟨.inr (by simpa using ho), rfl⟩
+  next ho =>
+  split at h
+  · cases h
+  next hm =>
+  split at h
+  · cases h
+  next hc =>
+  split at h
+  · cases h
+  · cases h
+    exact .inr ⟨by simpa using hi, by simpa using ho, hm, hc, rfl⟩
+
+end
+
+/-! ### `sweepsOf` -/
+
+theorem sweepsOf_length (rs : List (Nat × Nat)) (r : Bool) : (sweepsOf rs r).length = rs.length := by
+  simp [sweepsOf]
+
+theorem sweepsOf_getElem (rs : List (Nat × Nat)) (r : Bool) (i : Nat) (h : i < (sweepsOf rs r).length) :
+    (sweepsOf rs r)[i] =
+      { rows := (rs[i]'(by simpa [sweepsOf] using h)).2 - (rs[i]'(by simpa [sweepsOf] using h)).1,
+        vmap := decide ((rs[i]'(by simpa [sweepsOf] using h)).2 - (rs[i]'(by simpa [sweepsOf] using h)).1 ≠ 1),
+        retain := if i + 1 < rs.length then true else r } := by
+  simp [sweepsOf]
+
+theorem sweepsOf_rows (rs : List (Nat × Nat)) (r : Bool) :
+    (sweepsOf rs r).map (·.rows) = rs.map (fun x => x.2 - x.1) := by
+  apply List.ext_getElem
+  · simp [sweepsOf_length]
+  · intro i h1 h2
+    simp [sweepsOf_getElem]
+
+theorem sweepsOf_vmap (rs : List (Nat × Nat)) (r : Bool) :
+    ∀ s ∈ sweepsOf rs r, s.vmap = true ↔ s.rows ≠ 1 := by
+  intro s hs
+  obtain ⟨i, hi, rfl⟩ := List.mem_iff_getElem.1 hs
+  simp [sweepsOf_getElem]
+
+theorem sweepsOf_dropLast (rs : List (Nat × Nat)) (r : Bool) :
+    ∀ s ∈ (sweepsOf rs r).dropLast, s.retain = true := by
+  intro s hs
+  obtain ⟨i, hi, rfl⟩ := List.mem_iff_getElem.1 hs
+  rw [List.getElem_dropLast, sweepsOf_getElem]
+  rw [List.length_dropLast, sweepsOf_length] at hi
+  simp only
+  rw [if_pos (by omega)]
+
+theorem sweepsOf_getLast (rs : List (Nat × Nat)) (r : Bool) :
+    ∀ s, (sweepsOf rs r).getLast? = some s → s.retain = r := by
+  intro s hs
+  rw [List.getLast?_eq_getElem?, List.getElem?_eq_some_iff] at hs
+  obtain ⟨hi, rfl⟩ := hs
+  rw [sweepsOf_getElem]
+  have hl := sweepsOf_length rs r
+  simp only
+  rw [if_neg (by omega)]
+
+theorem sweepsOf_no_vmap (rs : List (Nat × Nat)) (r : Bool) (h : ∀ x ∈ rs, x.2 - x.1 = 1) :
+    ∀ s ∈ sweepsOf rs r, s.vmap = false := by
+  intro s hs
+  obtain ⟨i, hi, rfl⟩ := List.mem_iff_getElem.1 hs
+  rw [sweepsOf_getElem]
+  simp [h _ (List.getElem_mem _)]
+
+/-! ### `backward`, `mtl_backward` -/
+
+section
+variable {α : Type} [Zero α] [One α] [Add α] [Mul α]
+
+omit [Zero α] [One α] [Mul α] in
+/-- what `backward`/`mtl_backward` do after `Jac`, as a function of the `Jac` result -/
+theorem tail_congr (E : Engine α) (A : Mat α → Except Err (Vec α)) (keys : List Key) (h : Grads α)
+    (r₁ r₂ : Except Err (JDict α × List Sweep)) (hr : r₁.map (·.1) = r₂.map (·.1)) :
+    let out := fun (r : Except Err (JDict α × List Sweep)) =>
+      (match r with
+      | .error e => (⟨h, some e, []⟩ : Outcome α)
+      | .ok (j1, sweeps) =>
+        match aggregateT E A keys j1 with
+        | .error e => ⟨h, some e, sweeps⟩
+        | .ok g1 =>
+          let (h', err) := accumulateT E g1 h
+          ⟨h', err, sweeps⟩)
+    (out r₁).grads = (out r₂).grads ∧ (out r₁).err = (out r₂).err := by
+  intro out
+  cases r₁ with
+  | error e₁ =>
+    cases r₂ with
+    | error e₂ =>
+      have : e₁ = e₂ := by simpa [Except.map] using hr
+      subst this; exact ⟨rfl, rfl⟩
+    | ok p₂ => simp [Except.map] at hr
+  | ok p₁ =>
+    cases r₂ with
+    | error e₂ => simp [Except.map] at hr
+    | ok p₂ =>
+      obtain ⟨j1, s1⟩ := p₁
+      obtain ⟨j2, s2⟩ := p₂
+      have : j1 = j2 := by simpa [Except.map] using hr
+      subst this
+      simp only [out]
+      cases aggregateT E A keys j1 with
+      | error e => exact ⟨rfl, rfl⟩
+      | ok g1 => exact ⟨rfl, rfl⟩
+
+theorem backward_go_congr (E : Engine α) (tensors inputs : List Key) (A : Mat α → Except Err (Vec α))
+    (c₁ c₂ : Option Nat) (retain : Bool) (h : Grads α)
+    (h₁ : ∀ k, c₁ = some k → 0 < k) (h₂ : ∀ k, c₂ = some k → 0 < k) :
+    (backward.go E tensors inputs A retain h c₁).grads = (backward.go E tensors inputs A retain h c₂).grads ∧
+    (backward.go E tensors inputs A retain h c₁).err = (backward.go E tensors inputs A retain h c₂).err := by
+  unfold backward.go
+  split
+  · exact ⟨rfl, rfl⟩
+  split
+  · exact ⟨rfl, rfl⟩
+  exact tail_congr E A inputs h _ _
+    (by rw [jacT_fst _ _ _ _ _ _ h₁, jacT_fst _ _ _ _ _ _ h₂])
+
+theorem mtl_vs_none (E : Engine α)
+    (ndim : Key → Nat) (losses features : List Key) (tps : List (List Key)) (shared : List Key)
+    (A : Mat α → Except Err (Vec α)) (c : Option Int) (retain : Bool) (h : Grads α)
+    (hc : ∀ k, c = some k → 0 < k) :
+    (mtlBackward E ndim losses features tps shared A c retain h).grads =
+      (mtlBackward E ndim losses features tps shared A none retain h).grads ∧
+    (mtlBackward E ndim losses features tps shared A c retain h).err =
+      (mtlBackward E ndim losses features tps shared A none retain h).err := by
+  cases c with
+  | none => exact ⟨rfl, rfl⟩
+  | some z =>
+    have hz : 0 < z := hc z rfl
+    have b : decide (z ≤ 0) = false := by simp; omega
+    have v : ∀ k, (some z).map Int.toNat = some k → 0 < k := by
+      intro k hk; simp at hk; omega
+    have v0 : ∀ k, (none : Option Int).map Int.toNat = some k → 0 < k := by
+      intro k hk; simp at hk
+    unfold mtlBackward
+    simp only [b, Bool.false_eq_true, if_false]
+    generalize runTasks E features (tps.zip losses) h = rt
+    obtain ⟨h1, r⟩ := rt
+    cases r with
+    | error e => exact ⟨rfl, rfl⟩
+    | ok ds =>
+      simp only []
+      repeat (split; · exact ⟨rfl, rfl⟩)
+      exact tail_congr E A shared h1 _ _
+        (by rw [jacT_fst _ _ _ _ _ _ v, jacT_fst _ _ _ _ _ _ v0])
+
+theorem backward_congr (E : Engine α) (tensors inputs : List Key) (A : Mat α → Except Err (Vec α))
+    (c₁ c₂ : Option Int) (retain : Bool) (h : Grads α)
+    (h₁ : ∀ k, c₁ = some k → 0 < k) (h₂ : ∀ k, c₂ = some k → 0 < k) :
+    (backward E tensors inputs A c₁ retain h).grads = (backward E tensors inputs A c₂ retain h).grads ∧
+    (backward E tensors inputs A c₁ retain h).err = (backward E tensors inputs A c₂ retain h).err := by
+  have key : ∀ c : Option Int, (∀ k, c = some k → 0 < k) →
+      ∃ cN : Option Nat, (∀ k, cN = some k → 0 < k) ∧
+        backward E tensors inputs A c retain h = backward.go E tensors inputs A retain h cN := by
+    intro c hc
+    cases c with
+    | none => exact ⟨none, by simp, rfl⟩
+    | some z =>
+      have hz : 0 < z := hc z rfl
+      refine ⟨some z.toNat, ?_, ?_⟩
+      · intro k hk; simp at hk; omega
+      · unfold backward
+        simp only []
+        rw [if_neg (by omega)]
+  obtain ⟨n₁, v₁, e₁⟩ := key c₁ h₁
+  obtain ⟨n₂, v₂, e₂⟩ := key c₂ h₂
+  rw [e₁, e₂]
+  exact backward_go_congr E tensors inputs A n₁ n₂ retain h v₁ v₂
+
+theorem backward_rejects (E : Engine α) (tensors inputs : List Key) (A : Mat α → Except Err (Vec α))
+    (k : Int) (hk : k ≤ 0) (retain : Bool) (h : Grads α) :
+    backward E tensors inputs A (some k) retain h = ⟨h, some Err.value, []⟩ := by
+  unfold backward
+  simp only []
+  rw [if_pos hk]
+
+end
+
 end Tjd.Autojac
